@@ -176,6 +176,46 @@ Section Tree.
         intros x Hl Hr. apply inners_tins in Hl as [-> | Hl]; [intuition | eauto].
   Qed.
 
+  (** ownership: the thread to an inner node lies in that node's own subtree *)
+  Fixpoint owns (T : ptree) : Prop :=
+    match T with
+    | PLeaf _ => True
+    | PNode i l r => In i (leaves l ++ leaves r) /\ owns l /\ owns r
+    end.
+
+  Lemma owns_wrap : forall S, owns S -> owns (wrap S).
+  Proof.
+    intros S H. unfold wrap. destruct (pbit k dp); simpl; repeat split; auto.
+    - apply in_or_app. right. simpl. auto.
+  Qed.
+
+  Lemma owns_tins : forall T, owns T -> owns (tins T).
+  Proof.
+    induction T as [i|i l IHl r IHr]; intros H.
+    - now apply owns_wrap.
+    - cbn [tins]. destruct (B i <? dp); [|now apply owns_wrap]. destruct H as [HI [Hl Hr]].
+      apply in_app_or in HI.
+      destruct (pbit k (B i)); simpl; repeat split; auto; rewrite in_app_iff, leaves_tins; tauto.
+  Qed.
+
+  Lemma nodup_leaves_wrap : forall S, NoDup (leaves S) -> ~ In nid (leaves S) -> NoDup (leaves (wrap S)).
+  Proof.
+    intros S N F. unfold wrap. destruct (pbit k dp); simpl.
+    - apply nodup_app_iff. split; auto. split; [repeat constructor; auto|]. intros x Hx [<- | []]. contradiction.
+    - constructor; auto.
+  Qed.
+
+  Lemma nodup_leaves_tins : forall T, NoDup (leaves T) -> ~ In nid (leaves T) -> NoDup (leaves (tins T)).
+  Proof.
+    induction T as [j|j l IHl r IHr]; intros N F.
+    - now apply nodup_leaves_wrap.
+    - cbn [tins]. destruct (B j <? dp); [|now apply nodup_leaves_wrap].
+      simpl in N, F. apply nodup_app_iff in N as [Nl [Nr D]]. rewrite in_app_iff in F.
+      destruct (pbit k (B j)); simpl; apply nodup_app_iff.
+      + split; auto. split; [apply IHr; tauto|]. intros x Hl Hr. apply leaves_tins in Hr as [-> | Hr]; [tauto | eauto].
+      + split; [apply IHl; tauto|]. split; auto. intros x Hl Hr. apply leaves_tins in Hl as [-> | Hl]; [tauto | eauto].
+  Qed.
+
   (** the bit invariant after the insertion of [k] (as node [nid], bit position [dp]) next to the
       key [K (ts k T)] the search for [k] ends at *)
   Hypothesis Bnid : B nid = dp.
